@@ -3,6 +3,7 @@
 Seeded changes to teohhanhui/callbag-rs used to test the checks (DESIGN §9.6).
 
   tools/seeded.py confirm <dir>     in a scratch worktree: demo passes on the unchanged tree, fails with the patch; the existing suite passes with the patch
+  tools/seeded.py intake <id> [dir]  confirm + store as seeded/<id>/ + eval
   tools/seeded.py eval <id> [tier]  apply seeded/<id>/patch.diff to /repo, run every claimed check (quick, then thorough for those that stayed
                                     silent if asked), undo the patch, record which checks reported a violation in seeded/<id>/meta.json
 """
@@ -23,12 +24,14 @@ def confirm(src):
     res = {}
     try:
         name = "demo_seeded"
+        feat = os.environ.get("SEEDED_FEATURES", "")        # a demo that needs a cargo feature (`tracing`, `verif`) to show the violation
+        feat = f"--features {feat} " if feat else ""
         shutil.copy(os.path.join(src, "demo.rs"), f"{wt}/tests/{name}.rs")
-        rc0, o0 = sh(f"cargo test --offline --test {name} 2>&1 | tail -15", cwd=wt)
+        rc0, o0 = sh(f"cargo test --offline {feat}--test {name} 2>&1 | tail -15", cwd=wt)
         res["demo_passes_unchanged"] = "test result: ok" in o0 and "FAILED" not in o0
         rc1, o1 = sh(f"git apply {os.path.join(src, 'patch.diff')}", cwd=wt)
         res["patch_applies"] = rc1 == 0
-        rc2, o2 = sh(f"cargo test --offline --test {name} 2>&1 | tail -15", cwd=wt)
+        rc2, o2 = sh(f"cargo test --offline {feat}--test {name} 2>&1 | tail -15", cwd=wt)
         res["demo_fails_with_patch"] = "FAILED" in o2 or "panicked" in o2
         os.remove(f"{wt}/tests/{name}.rs")
         rc3, o3 = sh("cargo test --offline --no-fail-fast 2>&1 | grep -E '^test result|FAILED|^error' ", cwd=wt)
@@ -105,6 +108,21 @@ if __name__ == "__main__":
         print(table())
     elif sys.argv[1] == "confirm":
         print(json.dumps(confirm(sys.argv[2]), indent=1))
+    elif sys.argv[1] == "intake":
+        # intake <id> [dir]: confirm the change a sub-agent left in <dir> (default /tmp/wt/<id>.out), store it as seeded/<id>/, evaluate it
+        sid = sys.argv[2]
+        src = sys.argv[3] if len(sys.argv) > 3 else f"/tmp/wt/{sid}.out"
+        c = confirm(src)
+        flags = {k: v for k, v in c.items() if k != "detail"}
+        if not all(flags.values()):
+            print(sid, "NOT CONFIRMED", flags); print(json.dumps(c["detail"], indent=1)); sys.exit(1)
+        d = os.path.join(ROOT, "seeded", sid); os.makedirs(d, exist_ok=True)
+        for f in ("patch.diff", "demo.rs"):
+            shutil.copy(os.path.join(src, f), d)
+        m = json.load(open(os.path.join(src, "meta.json"))); m["confirmation"] = flags
+        json.dump(m, open(os.path.join(d, "meta.json"), "w"), indent=1)
+        c, s = evaluate(sid, "quick")
+        print(sid, "confirmed; caught by:", sorted(c), " silent:", len(s))
     elif sys.argv[1] == "eval":
         c, s = evaluate(sys.argv[2], sys.argv[3] if len(sys.argv) > 3 else "quick")
         print("caught by:", sorted(c), " silent:", s)
